@@ -108,14 +108,14 @@ VARIABLES
   \* ---- periodic monitor ----
   ppc, pv, pcont, pretry, pnorm, plast, pafter, ppoll, pgap,
   \* ---- simulator ----
-  srs, srr, sos, sor, sfe, srun, spoll, snpoll, scode, sunmet, snotified, skills, sfile,
+  srs, srr, sos, sor, sfe, srun, spoll, snpoll, scode, sunmet, snotified, skills, sfile, scall, swait, sseen,
   \* ---- tables ----
   tabc, trk, tnow
 
 taskVars == <<k, st, disp, rc, lock, wpc, fin, epoch, ev, opc, seen, sigs, late, lost, res>>
 monVars == <<dm, tpc, tsaw, tval, cancel, timers, nact, nerr, terr, actc>>
 perVars == <<ppc, pv, pcont, pretry, pnorm, plast, pafter, ppoll, pgap>>
-simVars == <<srs, srr, sos, sor, sfe, srun, spoll, snpoll, scode, sunmet, snotified, skills, sfile>>
+simVars == <<srs, srr, sos, sor, sfe, srun, spoll, snpoll, scode, sunmet, snotified, skills, sfile, scall, swait, sseen>>
 tabVars == <<tabc, trk, tnow>>
 vars == <<taskVars, monVars, perVars, simVars, tabVars>>
 
@@ -162,6 +162,7 @@ PerIdle ==
 SimIdle ==
   /\ srs = "none" /\ srr = NoRc /\ sos = "none" /\ sor = NoRc /\ sfe = FALSE /\ srun = "none" /\ spoll = "none"
   /\ snpoll = 0 /\ scode = 0 /\ sunmet = FALSE /\ snotified = FALSE /\ skills = 0 /\ sfile = "-"
+  /\ scall = "idle" /\ swait = "idle" /\ sseen = NoRes
 TabIdle == tabc = 0 /\ trk = <<>> /\ tnow = 0
 
 -----------------------------------------------------------------------------
@@ -244,15 +245,21 @@ Waiter == WStart \/ WWake \/ WRc \/ WFin \/ WEpoch \/ WSet
 WaitCall(o) ==
   /\ Exists /\ opc[o] = "idle" /\ opc' = [opc EXCEPT ![o] = "new"]
   /\ UNCHANGED <<k, st, disp, rc, lock, wpc, fin, epoch, ev, seen, sigs, late, lost, res, monVars>>
-OStart(o) ==
+OCheck(o) ==      \* `if self._z_finished_date is None`
   /\ opc[o] = "new"
-  /\ IF fin \/ ev THEN opc' = [opc EXCEPT ![o] = "done"] /\ seen' = [seen EXCEPT ![o] = <<rc, epoch>>]
-               ELSE opc' = [opc EXCEPT ![o] = "evwait"] /\ seen' = seen
+  /\ IF fin THEN opc' = [opc EXCEPT ![o] = "done"] /\ seen' = [seen EXCEPT ![o] = <<rc, epoch>>]
+            ELSE opc' = [opc EXCEPT ![o] = "chk"] /\ seen' = seen
+  /\ UNCHANGED <<k, st, disp, rc, lock, wpc, fin, epoch, ev, sigs, late, lost, res, monVars>>
+OWait(o) ==       \* `self._z_wait_event.wait()`: returns at once when the event is set by now
+  /\ opc[o] = "chk"
+  /\ IF ev THEN opc' = [opc EXCEPT ![o] = "done"] /\ seen' = [seen EXCEPT ![o] = <<rc, epoch>>]
+           ELSE opc' = [opc EXCEPT ![o] = "evwait"] /\ seen' = seen
   /\ UNCHANGED <<k, st, disp, rc, lock, wpc, fin, epoch, ev, sigs, late, lost, res, monVars>>
 OWake(o) ==
   /\ opc[o] = "evwait" /\ ev
   /\ opc' = [opc EXCEPT ![o] = "done"] /\ seen' = [seen EXCEPT ![o] = <<rc, epoch>>]
   /\ UNCHANGED <<k, st, disp, rc, lock, wpc, fin, epoch, ev, sigs, late, lost, res, monVars>>
+OStep(o) == OCheck(o) \/ OWait(o) \/ OWake(o)
 
 \* ---- the death / event monitor attached to the task
 TestArms(v) == IF MonKind = "death" THEN v = "True" ELSE v = "False"     \* `LifeCheck() is True` / `test() is False`
@@ -307,7 +314,7 @@ TaskNext ==
      \/ \E f \in {"poll", "isAlive", "exitReason", "status"} : Query(f) /\ EdgeT(<<"Call", f, ViewOf(RcAfterPoll)>>)
      \/ Waiter /\ EdgeT(<<"W", 0>>)
      \/ \E o \in Observers : WaitCall(o) /\ EdgeT(<<"WaitCall", o>>)
-     \/ \E o \in Observers : (OStart(o) \/ OWake(o)) /\ EdgeT(<<"O", o>>)
+     \/ \E o \in Observers : OStep(o) /\ EdgeT(<<"O", o>>)
      \/ MonStart /\ EdgeT(<<"MonStart", 0>>)
      \/ Cancel /\ EdgeT(<<"Cancel", 0>>)
      \/ Fire /\ EdgeT(<<"Fire", 0>>)
@@ -317,15 +324,16 @@ TaskNext ==
      \/ \E out \in ActOuts \ {"fs"} : TAct(out) /\ EdgeT(<<"T", out>>)
 
 TaskSpec == TaskInit /\ [][TaskNext]_vars
-TaskFair == TaskSpec /\ WF_vars(Waiter) /\ \A o \in Observers : WF_vars(OStart(o) \/ OWake(o))
-MonFair == TaskFair /\ WF_vars(Fire) /\ WF_vars(TChk) /\ WF_vars(TDecide) /\ WF_vars(\E v \in TestVals \cup {"-"} : TTest(v))
-                    /\ WF_vars(\E out \in ActOuts : TAct(out))
+TaskFair == TaskSpec /\ WF_vars(Frozen1 /\ Waiter) /\ \A o \in Observers : WF_vars(Frozen1 /\ OStep(o))
+MonFair == TaskFair /\ WF_vars(Frozen1 /\ Fire) /\ WF_vars(Frozen1 /\ TChk) /\ WF_vars(Frozen1 /\ TDecide)
+                    /\ WF_vars(Frozen1 /\ \E v \in TestVals \cup {"-"} : TTest(v))
+                    /\ WF_vars(Frozen1 /\ \E out \in ActOuts : TAct(out))
 
 \* ---- what callers rely on (hold)
 TaskTypeOK ==
   /\ k \in {"none", "failed", "run", "zombie", "reaped"}
   /\ wpc \in {"none", "new", "blocked", "sys", "post", "fin", "epoch", "done"}
-  /\ \A o \in Observers : opc[o] \in {"idle", "new", "evwait", "done"}
+  /\ \A o \in Observers : opc[o] \in {"idle", "new", "chk", "evwait", "done"}
   /\ dm \in {"off", "tick", "armed", "stopped", "fired", "died"}
   /\ tpc \in {"none", "new", "chk", "tst", "act"}
 ViewConsistent ==       \* returncode None iff alive iff no exit reason iff status running; finished iff Success
@@ -341,7 +349,7 @@ RcStable == [][rc # NoRc => rc' = rc]_vars
 StatusStable == [][(k \in {"zombie", "reaped"}) => st' = st]_vars
 NoSignalAfterKnownDead == [][rc # NoRc => (sigs' = sigs /\ late' = late /\ lost' = lost)]_vars
 ExitLeadsToEvent == (k = "zombie") ~> ev
-WaitersReturn == \A o \in Observers : (opc[o] \in {"new", "evwait"} /\ k # "run") ~> (opc[o] = "done")
+WaitersReturn == \A o \in Observers : (opc[o] \in {"new", "chk", "evwait"} /\ k # "run") ~> (opc[o] = "done")
 HardKillLeadsToDeath == (Len(sigs) > 0 /\ disp = "die") ~> (rc # NoRc)
 
 \* ---- named deviations: strong properties that do NOT hold
@@ -407,9 +415,14 @@ PElapse ==
 PCond ==
   /\ ppc = "c3"
   /\ IF pv THEN PTop /\ UNCHANGED ppoll
-     ELSE IF IntervalKind = "number" THEN ppc' = "wait" /\ UNCHANGED <<pv, ppoll>>
-                                     ELSE ppc' = "ivl" /\ UNCHANGED <<pv, ppoll>>
+     ELSE IF IntervalKind = "number"
+          THEN ppc' = "w0" /\ UNCHANGED <<pv, ppoll>>      \* TypeError: the interval is a number: cancelEvent.wait(interval) is entered
+          ELSE ppc' = "ivl" /\ UNCHANGED <<pv, ppoll>>
   /\ UNCHANGED <<pcont, pretry, pnorm, plast, pafter, pgap, cancel, nerr>>
+PWaitEnter ==      \* cancelEvent.wait(interval): returns at once when the event is set by now
+  /\ ppc = "w0"
+  /\ IF cancel THEN PTop ELSE ppc' = "wait" /\ pv' = pv
+  /\ UNCHANGED <<pcont, pretry, pnorm, plast, pafter, ppoll, pgap, cancel, nerr>>
 PWaitWoken ==      \* cancelEvent.wait(interval) returns because the event was set
   /\ ppc = "wait" /\ cancel /\ PTop
   /\ UNCHANGED <<pcont, pretry, pnorm, plast, pafter, ppoll, pgap, cancel, nerr>>
@@ -423,7 +436,7 @@ PCond2 ==          \* `if not execute_now and condition()`
   /\ UNCHANGED <<pcont, pretry, pnorm, plast, pafter, ppoll, pgap, cancel, nerr>>
 PFirst == ppc = "new" /\ PTop /\ UNCHANGED <<pcont, pretry, pnorm, plast, pafter, ppoll, pgap, cancel, nerr>>
 
-PThread == PFirst \/ PEnter \/ PCond \/ PWaitWoken \/ PCond2
+PThread == PFirst \/ PEnter \/ PCond \/ PWaitEnter \/ PWaitWoken \/ PCond2
 PerBound == pnorm < MaxAct /\ ppoll < MaxPoll
 
 PerNext ==
@@ -436,10 +449,11 @@ PerNext ==
      \/ PerBound /\ PElapse /\ EdgeP(<<"Elapse", "-">>)
 
 PerSpec == PerInit /\ [][PerNext]_vars
-PerFair == PerSpec /\ WF_vars(PerBound /\ PThread) /\ WF_vars(PerBound /\ PElapse)
-                   /\ WF_vars(\E out \in ActOuts : PerBound /\ PAct(out)) /\ WF_vars(\E b \in BOOLEAN : PerBound /\ PInterval(b))
+PerFair == PerSpec /\ WF_vars(Frozen2 /\ PerBound /\ PThread) /\ WF_vars(Frozen2 /\ PerBound /\ PElapse)
+                   /\ WF_vars(Frozen2 /\ \E out \in ActOuts : PerBound /\ PAct(out))
+                   /\ WF_vars(Frozen2 /\ \E b \in BOOLEAN : PerBound /\ PInterval(b))
 
-PerTypeOK == ppc \in {"off", "new", "c1", "act", "x5", "x30", "c3", "wait", "ivl", "c8", "poll", "done"}
+PerTypeOK == ppc \in {"off", "new", "c1", "act", "x5", "x30", "c3", "w0", "wait", "ivl", "c8", "poll", "done"}
 LastAtMostOnce == plast <= 1
 LastOnlyAfterCancel == plast > 0 => cancel
 NoLastWhenDisabled == ~LastAction => plast = 0
@@ -455,82 +469,128 @@ CancelLeadsToLastAction == (LastAction /\ cancel /\ ppc # "off") ~> (plast = 1 \
 
 -----------------------------------------------------------------------------
 (* 3. SimulatorTask                                                         *)
-(* srs/srr: _real_state/_real_return_code, sos/sor: _observed_*, sfe:       *)
-(* _finished_event.  srun: the thread _run at statement granularity:        *)
-(*   sleep (scheduling overhead) -> [lock] exec (state executing, started   *)
-(*   written) -> cwait (condition wait exec_time) | unmet -> e1 (epoch) ->  *)
-(*   e2 (state finished) -> e3 (code) -> done (file written, lock released) *)
-(* spoll: the poll thread: c1 (first copy of the code), c2 (state copied),  *)
-(*   c3 (code copied) -> event set | sleep 1 s -> next poll thread          *)
+(* srs/srr: _real_state/_real_return_code (written by the thread _run and   *)
+(* by kill()), sos/sor: _observed_state/_observed_return_code (written by   *)
+(* the poll threads, read by isAlive/returncode/exitReason/status), sfe:    *)
+(* _finished_event.  A step of a thread runs its statements until one of    *)
+(* them changes this state, or the thread blocks or ends.                   *)
+(*   srun  (_run): new -> sleep (scheduling overhead) -> x1 (condition lock *)
+(*         taken, state executing) -> cwait (Condition.wait(exec_time), lock*)
+(*         released) | u1 (unmet dependencies: code 1) -> e2 (state         *)
+(*         finished) -> e3 (code := expected) -> f1 (finished.txt) -> done  *)
+(*         or e2 -> k1 (code already set: killed.txt) -> done               *)
+(*   spoll (poll): A: observed code := real code; B: observed state := real *)
+(*         state; C: observed code := real code; D: not alive -> event set, *)
+(*         alive -> sleep 1 s, then a NEW poll thread                       *)
+(*   scall (kill() == terminate()): if isAlive(): real code := -9; with the *)
+(*         condition lock: notify if executing                              *)
 
-SS == <<srs, srr, sos, sor, sfe, srun, spoll, snpoll, scode, sunmet, snotified, skills, sfile>>
+SS == <<srs, srr, sos, sor, sfe, srun, spoll, snpoll, scode, sunmet, snotified, skills, sfile, scall, swait, sseen>>
 EdgeS(l) == Emit => PrintT(ToJson(<<SS, l, SS'>>))
 SimInit == TaskIdle /\ MonIdle /\ PerIdle /\ SimIdle /\ TabIdle
 Frozen3 == UNCHANGED <<taskVars, monVars, perVars, tabVars>>
 
-SimAliveView == sos \in {"submitted", "executing"}
-SimViewRc == sor
+SimAlive == sos \in {"submitted", "executing"}
+SimLockHeld == srun \in {"x1", "u1", "e2", "e3", "f1", "k1"}
+SimReason(r) == IF r = NoRc THEN "raised TypeError" ELSE ReasonSim(r)
+\* <<isAlive(), returncode, exitReason, status>>
+SimView == IF SimAlive THEN <<"T", sor, "None", "running">> ELSE <<"F", sor, SimReason(sor), StatusOf(IF sor = NoRc THEN 1 ELSE sor)>>
 
 SCreate(c, u) ==
   /\ srs = "none"
   /\ srs' = "submitted" /\ sos' = "submitted" /\ srun' = "new" /\ spoll' = "new" /\ scode' = c /\ sunmet' = u
-  /\ UNCHANGED <<srr, sor, sfe, snpoll, snotified, skills, sfile>>
-\* _run
-SRunStart == srun = "new" /\ srun' = "sleep" /\ UNCHANGED <<srs, srr, sos, sor, sfe, spoll, snpoll, scode, sunmet, snotified, skills, sfile>>
-SRunWake ==       \* the scheduling overhead has passed: with the lock: state executing, started.txt
-  /\ srun = "sleep" /\ srs = "submitted"
-  /\ srs' = "executing"
-  /\ IF sunmet THEN srr' = 1 /\ srun' = "e1" ELSE srr' = srr /\ srun' = "cwait"
-  /\ snotified' = FALSE
-  /\ UNCHANGED <<sos, sor, sfe, spoll, snpoll, scode, sunmet, skills, sfile>>
-SRunResume ==     \* the execution time has passed or kill() notified the condition
-  /\ srun = "cwait" /\ srun' = "e1"
-  /\ UNCHANGED <<srs, srr, sos, sor, sfe, spoll, snpoll, scode, sunmet, snotified, skills, sfile>>
-SRunState == srun = "e1" /\ srs' = "finished" /\ srun' = "e2"
-             /\ UNCHANGED <<srr, sos, sor, sfe, spoll, snpoll, scode, sunmet, snotified, skills, sfile>>
+  /\ UNCHANGED <<srr, sor, sfe, snpoll, snotified, skills, sfile, scall, swait, sseen>>
+
+SRunStart == srun = "new" /\ srun' = "sleep" /\ UNCHANGED <<srs, srr, snotified, sfile>>
+SRunWake == srun = "sleep" /\ srs' = "executing" /\ srun' = "x1" /\ UNCHANGED <<srr, snotified, sfile>>      \* the overhead has passed
+SRunExec ==
+  /\ srun = "x1"
+  /\ IF sunmet THEN srr' = 1 /\ srun' = "u1" /\ snotified' = snotified
+               ELSE srr' = srr /\ srun' = "cwait" /\ snotified' = FALSE
+  /\ UNCHANGED <<srs, sfile>>
+SRunResume ==     \* the execution time has passed, or kill() notified the condition
+  /\ srun \in {"cwait", "u1"} /\ srs' = "finished" /\ srun' = "e2" /\ UNCHANGED <<srr, snotified, sfile>>
 SRunCode ==
   /\ srun = "e2"
-  /\ IF srr = NoRc THEN srr' = scode /\ sfile' = "finished" ELSE srr' = srr /\ sfile' = "killed"
-  /\ srun' = "done"
-  /\ UNCHANGED <<srs, sos, sor, sfe, spoll, snpoll, scode, sunmet, snotified, skills>>
-SRun == SRunStart \/ SRunWake \/ SRunResume \/ SRunState \/ SRunCode
-\* poll
-SPollA == spoll \in {"new"} /\ sor' = srr /\ spoll' = "c1"
-          /\ UNCHANGED <<srs, srr, sos, sfe, srun, snpoll, scode, sunmet, snotified, skills, sfile>>
-SPollB == spoll = "c1" /\ sos' = srs /\ spoll' = "c2"
-          /\ UNCHANGED <<srs, srr, sor, sfe, srun, snpoll, scode, sunmet, snotified, skills, sfile>>
-SPollC == spoll = "c2" /\ sor' = srr /\ spoll' = "c3"
-          /\ UNCHANGED <<srs, srr, sos, sfe, srun, snpoll, scode, sunmet, snotified, skills, sfile>>
-SPollD == /\ spoll = "c3"
-          /\ IF SimAliveView THEN spoll' = "sleep" /\ sfe' = sfe ELSE spoll' = "done" /\ sfe' = TRUE
-          /\ UNCHANGED <<srs, srr, sos, sor, srun, snpoll, scode, sunmet, snotified, skills, sfile>>
-SPollNext == spoll = "sleep" /\ snpoll < MaxSimPoll /\ spoll' = "new" /\ snpoll' = snpoll + 1
-          /\ UNCHANGED <<srs, srr, sos, sor, sfe, srun, scode, sunmet, snotified, skills, sfile>>
-SPoll == SPollA \/ SPollB \/ SPollC \/ SPollD \/ SPollNext
-\* kill() == terminate(): if isAlive(): _real_return_code = -9; with the lock: notify if executing
-SKill(which) ==
-  /\ srs # "none" /\ skills < MaxKill /\ skills' = skills + 1
-  /\ srun \notin {"e1", "e2"} \/ ~SimAliveView         \* the lock is held by _run from "exec" to the end: kill() would wait for it
-  /\ IF SimAliveView THEN srr' = -9 /\ snotified' = (snotified \/ srs = "executing") ELSE UNCHANGED <<srr, snotified>>
-  /\ UNCHANGED <<srs, sos, sor, sfe, srun, spoll, snpoll, scode, sunmet, sfile>>
+  /\ IF srr = NoRc THEN srr' = scode /\ srun' = "e3" /\ sfile' = sfile
+                   ELSE srr' = srr /\ srun' = "k1" /\ sfile' = "killed"
+  /\ UNCHANGED <<srs, snotified>>
+SRunFile == srun = "e3" /\ sfile' = "finished" /\ srun' = "f1" /\ UNCHANGED <<srs, srr, snotified>>
+SRunEnd == srun \in {"f1", "k1"} /\ srun' = "done" /\ UNCHANGED <<srs, srr, snotified, sfile>>
+SRun == /\ (SRunStart \/ SRunWake \/ SRunExec \/ SRunResume \/ SRunCode \/ SRunFile \/ SRunEnd)
+        /\ UNCHANGED <<sos, sor, sfe, spoll, snpoll, scode, sunmet, skills, scall, swait, sseen>>
 
+SPollStep ==
+  /\ spoll \in {"new", "a", "b", "c"}
+  /\ LET from == CASE spoll = "new" -> 1 [] spoll = "a" -> 2 [] spoll = "b" -> 3 [] OTHER -> 4
+         doA == from = 1 /\ sor # srr
+         doB == ~doA /\ from <= 2 /\ sos # srs
+         doC == ~doA /\ ~doB /\ from <= 3 /\ sor # srr
+     IN CASE doA -> sor' = srr /\ spoll' = "a" /\ UNCHANGED <<sos, sfe>>
+          [] doB -> sos' = srs /\ spoll' = "b" /\ UNCHANGED <<sor, sfe>>
+          [] doC -> sor' = srr /\ spoll' = "c" /\ UNCHANGED <<sos, sfe>>
+          [] OTHER -> IF SimAlive THEN spoll' = "sleep" /\ UNCHANGED <<sos, sor, sfe>>
+                                  ELSE spoll' = "done" /\ sfe' = TRUE /\ UNCHANGED <<sos, sor>>
+  /\ UNCHANGED <<srs, srr, srun, snpoll, scode, sunmet, snotified, skills, sfile, scall, swait, sseen>>
+SPollNext ==
+  /\ spoll = "sleep" /\ snpoll < MaxSimPoll /\ spoll' = "new" /\ snpoll' = snpoll + 1
+  /\ UNCHANGED <<srs, srr, sos, sor, sfe, srun, scode, sunmet, snotified, skills, sfile, scall, swait, sseen>>
+SPoll == SPollStep \/ SPollNext
+
+\* kill() / terminate() by a thread of the owner
+SKillCall(w) ==
+  /\ srs # "none" /\ skills < MaxKill /\ scall \in {"idle", "done"} /\ skills' = skills + 1 /\ scall' = "new"
+  /\ UNCHANGED <<srs, srr, sos, sor, sfe, srun, spoll, snpoll, scode, sunmet, snotified, sfile, swait, sseen>>
+SKillNotify == snotified' = (snotified \/ (srs = "executing" /\ srun = "cwait"))
+SKillStep ==
+  /\ \/ /\ scall = "new"
+        /\ IF ~SimAlive THEN scall' = "done" /\ UNCHANGED <<srr, snotified>>
+           ELSE IF srr # -9 THEN srr' = -9 /\ scall' = "k1" /\ snotified' = snotified
+           ELSE /\ srr' = srr
+                /\ IF SimLockHeld THEN scall' = "lock" /\ snotified' = snotified ELSE scall' = "done" /\ SKillNotify
+     \/ /\ scall = "k1" /\ srr' = srr
+        /\ IF SimLockHeld THEN scall' = "lock" /\ snotified' = snotified ELSE scall' = "done" /\ SKillNotify
+     \/ /\ scall = "lock" /\ ~SimLockHeld /\ srr' = srr /\ scall' = "done" /\ SKillNotify
+  /\ UNCHANGED <<srs, sos, sor, sfe, srun, spoll, snpoll, scode, sunmet, skills, sfile, swait, sseen>>
+\* a thread calling wait()
+SWaitCall == srs # "none" /\ swait = "idle" /\ swait' = "new"
+             /\ UNCHANGED <<srs, srr, sos, sor, sfe, srun, spoll, snpoll, scode, sunmet, snotified, skills, sfile, scall, sseen>>
+SWaitStep ==
+  /\ \/ swait = "new" /\ swait' = "chk" /\ sseen' = sseen
+     \/ swait = "chk" /\ (IF sfe THEN swait' = "done" /\ sseen' = SimView ELSE swait' = "blocked" /\ sseen' = sseen)
+     \/ swait = "blocked" /\ sfe /\ swait' = "done" /\ sseen' = SimView
+  /\ UNCHANGED <<srs, srr, sos, sor, sfe, srun, spoll, snpoll, scode, sunmet, snotified, skills, sfile, scall>>
+SQuery == srs # "none" /\ UNCHANGED SS
+
+\* Condition.wait(exec_time) returns when notified or when the time is over; sleep(overhead) when the time is over
 SimNext ==
   /\ Frozen3
   /\ \/ \E c \in SimCodes, u \in SimUnmet : SCreate(c, u) /\ EdgeS(<<"Create", c, u>>)
-     \/ SRun /\ EdgeS(<<"R", 0, FALSE>>)
-     \/ SPoll /\ EdgeS(<<"P", 0, FALSE>>)
-     \/ \E w \in {"kill", "terminate"} : SKill(w) /\ EdgeS(<<"Call", w, FALSE>>)
+     \/ SRun /\ EdgeS(<<"R", IF srun \in {"sleep", "cwait"} /\ ~(srun = "cwait" /\ snotified) THEN "timeout" ELSE "-", 0>>)
+     \/ SPoll /\ EdgeS(<<"P", IF spoll = "sleep" THEN "timeout" ELSE "-", 0>>)
+     \/ \E w \in {"kill", "terminate"} : SKillCall(w) /\ EdgeS(<<"Kill", w, 0>>)
+     \/ SKillStep /\ EdgeS(<<"K", "-", 0>>)
+     \/ SWaitCall /\ EdgeS(<<"WaitCall", "-", 0>>)
+     \/ SWaitStep /\ EdgeS(<<"O", "-", 0>>)
+     \/ SQuery /\ EdgeS(<<"View", "-", SimView>>)
 SimSpec == SimInit /\ [][SimNext]_vars
-SimFair == SimSpec /\ WF_vars(SRun) /\ WF_vars(SPoll)
+SimFair == SimSpec /\ WF_vars(Frozen3 /\ SRun) /\ WF_vars(Frozen3 /\ SPoll) /\ WF_vars(Frozen3 /\ SKillStep) /\ WF_vars(Frozen3 /\ SWaitStep)
 
-SimTypeOK == srs \in {"none", "submitted", "executing", "finished"} /\ sos \in {"none", "submitted", "executing", "finished"}
-SimEventOnlyWhenDead == sfe => ~SimAliveView
+SimTypeOK == /\ srs \in {"none", "submitted", "executing", "finished"} /\ sos \in {"none", "submitted", "executing", "finished"}
+             /\ srun \in {"none", "new", "sleep", "x1", "cwait", "u1", "e2", "e3", "f1", "k1", "done"}
+             /\ spoll \in {"none", "new", "a", "b", "c", "sleep", "done"} /\ scall \in {"idle", "new", "k1", "lock", "done"}
+SimEventOnlyWhenDead == sfe => ~SimAlive
 SimObservedFollowsReal == (sos = "finished" => srs = "finished") /\ (sos = "executing" => srs \in {"executing", "finished"})
-SimKilledIsKilled == (~SimAliveView /\ sos # "none" /\ sor = -9) => ReasonSim(sor) = "Killed"
+SimObservedCodeWasReal == sor \in {NoRc, scode, -9, 1}
+SimDeadIsFinal == [][sfe => (sfe' /\ sos' = sos /\ sor' = sor)]_vars      \* what the owner sees is final once the event is set
+SimWaitReturnsDead == swait = "done" => sseen[1] = "F"
 SimEndLeadsToEvent == (srs = "finished") ~> (sfe \/ snpoll = MaxSimPoll)
+SimKillLeadsToEnd == (skills > 0 /\ scall = "done" /\ srr = -9) ~> (srs = "finished")
 \* deviations
-SimDeadHasCode == (sos = "finished") => sor # NoRc                      \* SimTornPoll
-SimFinishedStaysFinished == [][(sfile = "finished") => srr' = srr]_vars   \* SimKillRewritesExit
+SimDeadHasCode == (sos = "finished") => sor # NoRc                          \* SimTornPoll (finding)
+SimCodeOnlyWhenDead == sor # NoRc => ~SimAlive                              \* SimCodeBeforeState
+SimFinishedStaysFinished == [][(sfile = "finished") => srr' = srr]_vars     \* SimKillRewritesExit
+SimKillAbortsExecution == [][(srr = -9 /\ srun = "x1") => srun' # "cwait"]_vars    \* SimKillWaitsOut
 
 -----------------------------------------------------------------------------
 (* 4. returncode -> exitReason / status, every code the implementations      *)
